@@ -138,6 +138,39 @@ fn main() {
             println!("stats: {}", serde_json::to_string(&res.stats).unwrap());
             println!("hash {:016x}", res.log_hash);
         }
+        Some("witness") => {
+            // rlsim witness <ID> <seed|iN> <out.json>: run one generated case and write the
+            // (pinned) case of its first violation as a replay file
+            let base: u64 = std::env::var("VERIF_SEED").ok().and_then(|s| s.parse().ok()).unwrap_or(1);
+            let seed = a(3).and_then(|s| match s.strip_prefix('i') {
+                Some(n) => n.parse::<u64>().ok().map(|n| rng::run_seed(base, n)),
+                None => s.parse::<u64>().ok(),
+            });
+            let (Some(id), Some(seed), Some(out)) = (a(2), seed, a(4)) else { usage() };
+            let case = cases::gen_case(id, seed);
+            let res = sup::run_in_child(&case, true, 300);
+            let Some(v) = res.violations.first() else {
+                println!("no violation");
+                std::process::exit(1);
+            };
+            let pinned = v.pinned.as_deref().cloned().unwrap_or(case);
+            let res2 = sup::run_in_child(&pinned, true, 300);
+            let Some(v2) = res2.violations.iter().find(|x| x.oracle == v.oracle) else {
+                println!("pinned case does not reproduce");
+                std::process::exit(1);
+            };
+            let rf = check::ReplayFile {
+                property: v2.prop.clone(),
+                sig: v2.sig.clone(),
+                oracle: v2.oracle.clone(),
+                detail: v2.detail.clone(),
+                expected_log_hash: res2.log_hash,
+                case: pinned,
+                log: res2.log.clone(),
+            };
+            std::fs::write(out, serde_json::to_string_pretty(&rf).unwrap()).unwrap();
+            println!("witness {out}: {} {}", v2.sig, v2.detail);
+        }
         Some("gen") => {
             // print the generated case (statements only) without running it
             let base: u64 = std::env::var("VERIF_SEED").ok().and_then(|s| s.parse().ok()).unwrap_or(1);
@@ -148,6 +181,7 @@ fn main() {
             let (Some(id), Some(seed)) = (a(2), seed) else { usage() };
             let case = cases::gen_case(id, seed);
             println!("knobs {:?}", case.knobs);
+            println!("params {:?} steps {}", case.params, case.steps.len());
             for (i, st) in case.steps.iter().enumerate() {
                 let b = st.brief();
                 println!("[{i}] {}", rng::cut(&b, 300));
